@@ -503,3 +503,96 @@ def analyse_full(fn, facts):
                     mr.flags_required.add(str(p_[1][1]))
     mr.flags_set = flags_set
     return mr
+
+
+def positional_reader(fn, facts):
+    """Array reader that treats element p by position (Timestamp = [secs, ticks]).  Tabulates positions 0..3 of its loop:
+    returns (info, rows) with rows[p] = ('member', name, reader call) | ('throw',) | ('other', text) and info =
+    {'loop', 'counter', 'cond', 'break_ok'}; or (None, reason)."""
+    from . import minieval
+    env0 = Env(fn["body"])
+    top = ir.stmts(fn["body"])
+    loops = [s for s in top if s.get("k") in ("For", "While")]
+    if len(loops) != 1:
+        return None, "expected one loop over the array elements (found %d)" % len(loops)
+    lp = loops[0]
+    c = cond(lp["cond"], env0) if lp.get("cond") is not None else ("T",)
+    parts = c[1:] if c[0] == "or" else [c]
+    indef_keys = [str(p[1]) for p in parts if p[0] == "nz"]
+    lens = [p for p in parts if p[0] == "cmp" and p[1] == "<"]
+    if not indef_keys or not lens:
+        return None, "loop condition %s is not `position < length || indef`" % show_f(c)
+    counter = lens[0][2]
+    body = ir.stmts(lp.get("body"))
+    bok, bwhy = break_check_ok(body[0], indef_keys[0], env0) if body else (False, "empty body")
+    # the position advances exactly once per iteration (for-header or a loop-level ++)
+    steps = 0
+    if lp["k"] == "For" and lp.get("inc") is not None:
+        steps += len([x for x in ir.walk(lp["inc"]) if x.get("k") == "Un" and x.get("op") in ("post++", "pre++") and path_str(path(x.get("e")) or ()) == counter])
+    for s_ in body:
+        u_ = unwrap(s_)
+        if u_.get("k") == "Un" and u_.get("op") in ("post++", "pre++") and path_str(path(u_.get("e")) or ()) == counter:
+            steps += 1
+        elif u_.get("k") == "Bin" and u_.get("op") == "+=" and path_str(path(u_.get("lhs")) or ()) == counter and const_value(u_.get("rhs")) == 1:
+            steps += 1
+    rows = {}
+
+    def walk_pos(stmts_, env, out):
+        for s_ in stmts_:
+            u_ = unwrap(s_)
+            k_ = u_.get("k")
+            if k_ == "Block":
+                r = walk_pos(u_.get("s", []), env, out)
+                if r:
+                    return r
+            elif k_ == "If":
+                try:
+                    t_ = minieval.ev(unwrap(u_["cond"]), env, facts.enums)
+                except minieval.Unknown:
+                    out.append(("other", "condition %s not decided by the position" % show(u_["cond"])[:50]))
+                    return "stop"
+                br = u_.get("then") if t_ else u_.get("else")
+                if br is not None:
+                    r = walk_pos(ir.stmts(br), env, out)
+                    if r:
+                        return r
+            elif k_ == "Switch":
+                try:
+                    on = minieval.ev(unwrap(u_["cond"]), env, facts.enums)
+                except minieval.Unknown:
+                    out.append(("other", "switch operand not decided by the position"))
+                    return "stop"
+                hit = None
+                dflt = None
+                for labels, sts_, falls, line in case_groups(u_):
+                    if any(l[0] == "case" and l[1] == on for l in labels):
+                        hit = (sts_, falls)
+                    if any(l[0] == "default" for l in labels):
+                        dflt = (sts_, falls)
+                sel = hit or dflt
+                if sel is not None:
+                    if sel[1]:
+                        out.append(("other", "case falls through"))
+                    r = walk_pos([x for x in sel[0] if x.get("k") != "Break"], env, out)
+                    if r:
+                        return r
+            elif k_ == "Throw":
+                out.append(("throw",))
+                return "stop"
+            elif k_ in ("Break", "Continue", "Return"):
+                return "stop"
+            else:
+                for lp_, rhs, node in assignment_targets([s_]):
+                    calls = [x for x in ir.walk(rhs) if decoder_call(x)]
+                    if lp_ and lp_[0] == "this" and len(lp_) > 1 and calls:
+                        out.append(("member", lp_[1], decoder_call(calls[0])))
+                for cns in consumes_in(s_, facts):
+                    if not any(o[0] == "member" for o in out) and not cns.kind.startswith("RAW:"):
+                        out.append(("other", "element consumed without being stored (%s)" % show(cns.call)[:40]))
+        return None
+    for p in range(4):
+        env = {counter: p, indef_keys[0]: 0}
+        out = []
+        walk_pos(body[1:] if bok else body, env, out)
+        rows[p] = out
+    return {"loop": lp, "counter": counter, "cond": c, "break_ok": bok, "break_why": bwhy, "steps": steps}, rows
